@@ -71,6 +71,8 @@ func runOracles(res *Result, prop string, c *Case) {
 		oracleC07(res, c)
 	case "C04":
 		oracleC04(res, c)
+	case "C14":
+		oracleC14(res, c)
 	}
 }
 
